@@ -1,6 +1,6 @@
 (* C02 — Integer solutions of the polyhedron are exactly the satisfying configurations.
    Only statements, `exact`, non-vacuity examples and Print Assumptions live here. *)
-Require Import Puan.Base Puan.Plog Puan.Sem Puan.EncodeFacts Puan.NegateFacts.
+Require Import Puan.Base Puan.Plog Puan.Sem Puan.EncodeFacts Puan.NegateFacts Puan.Errors Puan.ErrorsSpec Puan.Validated.
 Open Scope string_scope.
 
 (* no valid configuration is lost: a satisfying leaf assignment extends to a point of the
@@ -13,6 +13,17 @@ Theorem C02_complete :
       Forall (sat x) (encode true m).
 Proof. exact encode_complete. Qed.
 Print Assumptions C02_complete.
+
+(* completeness stated from validation itself (see C01_validated for the hypotheses) *)
+Theorem C02_complete_validated :
+  forall (env : ident -> Z) (m : prop),
+    errors2 m = [] -> no_bounds_hash_collision m -> no_value_hash_collision m ->
+    leaves_apart m -> gen_coherent m -> plain_inb env m -> is_var m = false -> eval env m = 1 ->
+    exists x, inb x m /\
+      (forall q, In q (nodes m) -> is_var q = true -> x (id_of q) = env (id_of q)) /\
+      Forall (sat x) (encode true m).
+Proof. intros env m He Hb Hv Hla Hgc. exact (validated_complete m (conj He (conj Hb Hv)) Hla Hgc env). Qed.
+Print Assumptions C02_complete_validated.
 
 (* solver-safe form: every in-bounds integer point x of the asserted polyhedron (auxiliary
    columns free in {0,1}) makes the model true on its leaf part (eval only reads leaf ids of x) *)
